@@ -23,5 +23,5 @@ void h_def_align(void) {
 void h_lemma_divmul(void) { uint32_t a, b; vg_lemma_divmul(a, b); VG_REACH(lemma_divmul); }
 void h_lemma_muldiv(void) { uint32_t a, b; vg_lemma_muldiv(a, b); VG_REACH(lemma_muldiv); }
 void h_lemma_mulmono(void) { uint32_t a, b, c; vg_lemma_mulmono(a, b, c); VG_REACH(lemma_mulmono); }
-void h_lemma_align_core(void) { uint32_t a, b, c, d, e; vg_lemma_align_core(a, b, c, d, e); VG_REACH(lemma_align_core); }
+void h_lemma_align_core(void) { uint32_t a, b, c, d, e, f; vg_lemma_align_core(a, b, c, d, e, f); VG_REACH(lemma_align_core); }
 void h_lemma_bits(void) { uint32_t a, b; vg_lemma_bits(a, b); VG_REACH(lemma_bits); }
